@@ -5,6 +5,7 @@ import NflowsModel.Lemmas.Coupling
 import NflowsModel.Lemmas.AutoregInverse
 import NflowsModel.Lemmas.Householder
 import NflowsModel.Lemmas.Multiscale
+import NflowsModel.Lemmas.Quad
 /-!
 # C02 — inverse undoes forward (both orders) and returns the negated log-abs-det
 
@@ -65,6 +66,26 @@ theorem rq_executed_inverse_forward {x xk w yk h d0 d1 : ℝ} (hw : 0 < w) (hh :
   rw [Bridge.rqRootE_eq, Bridge.rqFwdE_eq]
   have := RQ.inverse_forward (s := h / w) (θ₀ := (x - xk) / w) hs h0 h1 hh ht0 ht1
   simpa using this
+
+/-- **Quadratic-spline inverse, as executed** (after the repair: stable root): for positive edge heights and a
+    target `y` in the bin's cdf range `[c, c + ½(hl+hr)w]` the executed root lies in `[0,1]` and the executed cdf of the
+    bin maps it back to `y` — including the case of equal edge heights (`a = 0`) that used to give NaN. -/
+theorem quad_executed_forward_inverse {y loc w c hl hr : ℝ} (hw : 0 < w) (h0 : 0 < hl) (h1 : 0 < hr)
+    (hy0 : c ≤ y) (hy1 : y ≤ c + (1/2) * (hl + hr) * w) :
+    let α := evalR (Bridge.qEnv y loc w c hl hr) quadInvAlphaE
+    0 ≤ α ∧ α ≤ 1 ∧ Quad.cdf hl hr w c α = y := by
+  intro α
+  have hα : α = (let a := (1/2 : ℝ) * (hr - hl) * w; let b := hl * w; let c' := c - y
+       2 * c' / (-b - Real.sqrt (b ^ 2 - 4 * a * c'))) := Bridge.quadInvAlphaE_eq y loc w c hl hr
+  have hc : c - y ≤ 0 := by linarith
+  have hsum : 0 ≤ (1/2 : ℝ) * (hr - hl) * w + hl * w + (c - y) := by nlinarith
+  have hb : c - y = 0 → 0 < hl * w := fun _ => mul_pos h0 hw
+  obtain ⟨_, _, ha0, ha1, hroot⟩ := StableRoot.stable_root hc hsum hb
+  rw [← hα] at ha0 ha1 hroot
+  refine ⟨ha0, ha1, ?_⟩
+  unfold Quad.cdf
+  have : (0.5 : ℝ) = 1/2 := by norm_num
+  rw [this]; linarith
 
 /-! ## structural -/
 
